@@ -163,18 +163,24 @@ Qed.
 
 Lemma step_UAdd : forall g t m p cols recs,
   InvC t m p ->
+  stale_user g t m (UAdd cols recs) = false ->
   unprotected (data_user t (UAdd cols recs)) (mech_user g t m (UAdd cols recs)) (xadd g (UAdd cols recs)) = false ->
   Inv (data_user t (UAdd cols recs)) (mech_user g t m (UAdd cols recs)) (spec_user g t p (UAdd cols recs)).
 Proof.
-  intros g t m p cols recs [Hp HI] Hun r Hr.
+  intros g t m p cols recs [Hp HI] Hst Hun r Hr.
   pose proof (unprotected_false _ _ _ Hun r Hr) as Hu. clear Hun.
-  cbn [data_user data_doc rows] in Hr. cbn [xadd] in Hu.
+  cbn [data_user data_doc rows] in Hr. cbn [xadd] in Hu. cbn [stale_user] in Hst.
   unfold eff_dirty in *. cbn [mech_user mech_doc dirty prevent spec_user pm py] in *. rewrite Hp in *.
   unfold set_or in *. cbn [negb] in *. rewrite !andb_true_r in *.
   destruct (memz r (ids recs)) eqn:Em.
-  - destruct (memz trc cols) eqn:Et; destruct (is_never g) eqn:En; cbn [orb andb negb] in *;
-      try (rewrite (Hu Em); split; intros; discriminate).
-    rewrite !orb_true_r. split; reflexivity.
+  - destruct (add_computes g cols) eqn:Ex.
+    2: { rewrite (Hu Em). split; intros; discriminate. }
+    clear Hu. unfold add_computes in Ex. apply andb_true_iff in Ex. destruct Ex as [En Ex].
+    rewrite En. destruct (memz trc cols) eqn:Et; cbn [negb orb andb] in *.
+    + rewrite Ex in Hst. apply memz_In, ids_In in Em. destruct Em as [w [Hw _]].
+      rewrite (nonnil_In _ _ _ Hw) in Hst. cbn [andb] in Hst. apply negb_false_iff in Hst.
+      rewrite Hst. rewrite !orb_true_r. split; reflexivity.
+    + rewrite !orb_true_r. split; reflexivity.
   - rewrite !andb_false_r, !orb_false_r. apply in_app_or in Hr. destruct Hr as [Hr|Hr].
     + apply HI. exact Hr.
     + apply memz_In in Hr. congruence.
@@ -360,7 +366,7 @@ Proof.
   - intros H. apply andb_true_iff in H. destruct H as [Hd Hpv]. apply negb_true_iff in Hpv.
     destruct (memz r (dadd_ids ds)) eqn:Ex.
     + specialize (Hu eq_refl). rewrite Hd, Hpv in Hu. discriminate.
-    + cbn [orb] in B. rewrite (B Hd Hpv Ex). destruct (ex p' r) eqn:Ee; [|reflexivity].
+    + cbn [orb] in B. rewrite (B Hd Hpv eq_refl). destruct (ex p' r) eqn:Ee; [|reflexivity].
       destruct (J2 r Ee) as [C|C]; [congruence|]. cbn [orb] in C. congruence.
 Qed.
 
@@ -415,4 +421,64 @@ Lemma fired_rows : forall g t b r, In r (fired g t b) -> In r (rows (fst (mech_a
 Proof.
   intros g t b r H. unfold fired in H. destruct (mech_actions g t mech0 b) as [t' m']. cbn.
   apply filter_In in H. tauto.
+Qed.
+
+(* the rows after a bundle *)
+Lemma rows_step : forall g t b, rows (step g t b) = rows (fst (mech_actions g t mech0 b)).
+Proof. intros. unfold step. destruct (mech_actions g t mech0 b) as [t' m']. reflexivity. Qed.
+
+Lemma mechanism_snoc : forall g h b, mechanism g (h ++ [b]) = step g (mechanism g h) b.
+Proof. intros. unfold mechanism. rewrite fold_left_app. reflexivity. Qed.
+
+(* "fired = spec" wherever the sentence decides *)
+Theorem fires_iff_spec : forall g t b r,
+  regular g t b = true -> In r (rows (step g t b)) -> unconstrained g t b r = false ->
+  memz r (fired g t b) = spec g t b r.
+Proof.
+  intros g t b r Hreg Hr Hun. rewrite rows_step in Hr.
+  destruct (fired_between_bounds g t b r Hreg) as [A B]. unfold spec, unconstrained in *.
+  destruct (must g t b r) eqn:Em.
+  - apply memz_In. apply A; auto.
+  - destruct (memz r (fired g t b)) eqn:Ef; [|reflexivity]. apply memz_In in Ef. apply B in Ef.
+    rewrite Ef in Hun. discriminate.
+Qed.
+
+(* schema changes alone never evaluate the trigger formula - no side condition *)
+Lemma filter_none : forall (A : Type) (f : A -> bool) l, (forall x, f x = false) -> filter f l = [].
+Proof. intros A f l H. induction l as [|x l IH]; [reflexivity|]. cbn. rewrite H. exact IH. Qed.
+
+Theorem schema_change_never_fires : forall g t c,
+  fired g t [UDocs [DRename c]] = [] /\ fired g t [UDocs [DModify c]] = [].
+Proof. intros. split; unfold fired; cbn; apply filter_none; intros; reflexivity. Qed.
+
+(* ... any bundle made of schema actions only *)
+Definition is_schema_action (a : uaction) : bool :=
+  match a with
+  | UDocs ds => forallb (fun d => match d with DRename _ | DModify _ => true | _ => false end) ds
+  | _ => false
+  end.
+
+Lemma schema_docs_dirty : forall g ds m,
+  forallb (fun d => match d with DRename _ | DModify _ => true | _ => false end) ds = true ->
+  forall r, dirty (fold_left (mech_doc g) ds m) r = dirty m r.
+Proof.
+  intros g ds. induction ds as [|d ds IH]; intros m H r; [reflexivity|].
+  cbn [forallb] in H. apply andb_true_iff in H. destruct H as [Hd H]. cbn [fold_left]. rewrite (IH _ H).
+  destruct d; try discriminate; reflexivity.
+Qed.
+
+Lemma schema_actions_dirty : forall g b t m,
+  forallb is_schema_action b = true ->
+  forall r, dirty (snd (mech_actions g t m b)) r = dirty m r.
+Proof.
+  intros g b. induction b as [|a b IH]; intros t m H r; [reflexivity|].
+  cbn [forallb] in H. apply andb_true_iff in H. destruct H as [Ha H]. cbn [mech_actions]. rewrite (IH _ _ H).
+  destruct a as [? ?|? ?|ds]; try discriminate. cbn [mech_user]. rewrite schema_docs_dirty; [reflexivity | exact Ha].
+Qed.
+
+Theorem schema_bundle_never_fires : forall g t b, forallb is_schema_action b = true -> fired g t b = [].
+Proof.
+  intros g t b H. unfold fired. pose proof (schema_actions_dirty g b t mech0 H) as Hd.
+  destruct (mech_actions g t mech0 b) as [t' m']. cbn [snd] in Hd. unfold fired_of. apply filter_none.
+  intros r. rewrite Hd. reflexivity.
 Qed.
